@@ -555,6 +555,37 @@ def run(sh):
             import traceback
             sh.count('crashed_cases')
             sh.notes.append(f'C14 case crashed: {type(e).__name__}: {e} {traceback.format_exc()[-600:]}')
+    # (f) merge points wired up by one set_upstream() call in the middle of a run: the same seed at 16 consecutive
+    # offsets of the id counter (every residue of the ids modulo 8 and 16 - the slot order of small hash tables)
+    for i in sh.share(24 if sh.tier == 'quick' else 1200):
+        seed = core.stable_int(sh.seed, 'C14merge', i) % (1 << 30)
+        spec = modelgen.generate_late_merge(seed)
+        total = sum(spec['horizon'])
+        case = {'engine': 'repro', 'spec': spec, 'seed': seed}
+        try:
+            from simprocesd.model.factory_floor.asset import Asset as _A
+            base0 = _A._id_counter
+            d0, ev0, _ = run_model(spec, seed, [total], 'native', offset=0)
+            for k in range(16):
+                off = (base0 + k + 1 - _A._id_counter) % 16
+                dk, evk, _ = run_model(spec, seed, [total], 'native', offset=off)
+                sh.count('events', evk)
+                if dk != d0:
+                    sh.violation('same_seed_differs', f'two runs with seed {seed} differ when the id counter starts '
+                                 f'{k + 1} further on (a station given several feeders by one set_upstream() call in '
+                                 f'mid-run): {first_diff(d0, dk)}', case, engine='repro')
+                    break
+                sh.count('same_seed_pairs_equal')
+                sh.count('late_merge_runs_at_consecutive_id_offsets')
+            dz, _, _ = run_model(spec, seed + 1, [total], 'native', offset=0)
+            if dz != d0:
+                sh.count('late_merge_models_where_other_seed_differs')
+            sh.case_done({'spec_hash': core.case_hash(spec), 'seed': seed, 'merge': True}, dz != d0,
+                         sample={'late_merge': True, 'devices': len(spec['items'])})
+        except Exception as e:
+            import traceback
+            sh.count('crashed_cases')
+            sh.notes.append(f'C14 late-merge case crashed: {type(e).__name__}: {e} {traceback.format_exc()[-600:]}')
     # (e) the same model and seed in fresh interpreters with different hash seeds
     for i in sh.share(32 if sh.tier == 'quick' else 480):
         hashseed_case(sh, i)
